@@ -17,7 +17,7 @@ func init() {
 		Explanation: "Structural necessary conditions of 'ACL decisions equal the documented policy semantics' (the part visible in the shape of acl.go / policy.go): " +
 			"(1) default deny: every Allowed=true store in ACL.AllowOperation lies behind the root arm (namespace is under the root ACL's namespace: the true edge of requestNamespace.HasParent(a.root) with exactly these operands), the help arm, or the operationAllowed test together with the wrapping-TTL bounds; with every req.Operation == <const> test false no policy-arm Allowed=true store is reachable (the default arm denies); " +
 			"(2) the operation↔capability table extracted from the operation switch equals the documented one (read→read … scan→scan; revoke/renew/rollback→update) and each arm tests and reports the same capability bit, every value flowing into operationAllowed is a single-bit test from an arm selected by an operation constant (or the constant false); ACL.Capabilities' bit→name chain equals the inverse of cap2Int; the policy parser accepts exactly the capability names of cap2Int and 'deny' overrides; " +
-			"(3) deny is sticky and everything else is a union when rules for one pattern are merged; " +
+			"(3) deny is sticky and everything else is a union when rules for one pattern are merged (the deny-bit test counts whether spelled > 0 or != 0); " +
 			"(4) the priority comparator of non-exact matches is the documented lexicographic order (first wildcard/glob position, prefix-ness, wildcard count, length, text) — decided by enumerating the closure's CFG paths over the five compared keys — and the caller takes the greatest element after sorting; exact matches are consulted before non-exact ones; " +
 			"(5) rule paths and request paths are namespace-qualified, and the qualifying store lies on every path from the creation of a rule object to its append to the policy's paths; " +
 			"(6) ownership: the per-request ACL never aliases mutable state of the cached policy objects — everything inserted into the ACL's rule trees comes from ACLPermissions.Clone or from the trees themselves, and map-typed permission fields are only assigned deep copies — so decisions cannot depend on which ACLs were built earlier; every map-, slice- and pointer-typed field of the value ACLPermissions.Clone returns is a fresh allocation or deep copy (never a load of the receiver's field), and a policy slice stored into the accumulated entry is replaced by an owned one before the entry is inserted; " +
@@ -25,7 +25,7 @@ func init() {
 			"(8) for read/update/create/patch every allowing path ran the required-parameter loop to its end, then (when the request carries parameters) found denied_parameters empty or ran the denied loop to its end, then found allowed_parameters empty, equal to {\"*\"} or ran the allowed loop to its end; the refusing edges (required parameter absent, \"*\" denied, denied value, value outside the allowed list, parameter outside allowed_parameters without \"*\") never reach an allow; " +
 			"(9) list and scan alike evaluate pagination_limit, and a limit above it, a negative limit or a missing required limit never reaches an allow; " +
 			"(10) rules of a cached policy are merged, and cached policies handed out, only across the not-expired edges of their expiration; " +
-			"(11) merging keeps the smaller of two max_wrapping_ttl / pagination_limit values; " +
+			"(11) merging keeps the smaller of two max_wrapping_ttl / pagination_limit values (the stores X.F = Y.F are located through the field's writers in package policy, so a merge helper is followed); " +
 			"(12) parameter names are lower-cased both where the parser stores them and where AllowOperation looks them up; " +
 			"(13) the parser strips a trailing glob and sets IsPrefix together and never for segment-wildcard rules, and the legacy policy shorthands expand to the reviewed capability sets; the candidates handed to the priority comparator carry keys computed from their own pattern (prefix candidate: isPrefix, position = length of the matched prefix; segment candidate: strings.Index of '+', permissions looked up under the same pattern); " +
 			"(14) Store.ACL fetches every attached policy name in the namespace it is attached in and builds no ACL after a failed fetch; " +
